@@ -31,6 +31,14 @@ def run(out, tier, seed):
                 for host in (HOST, HOST2):
                     f.write(json.dumps({"src": progs.render(p["toks"]), "ast": p["ast"], "host": host}, separators=(",", ":")) + "\n")
                     ncases += 1
+    # && / || over an else-chain operand whose default ends in each boolean-producing operator (MC_LogicShapes)
+    pp = os.path.join(wd, "MC_LogicShapes.ndjson")
+    n = progs.generate_programs(out, "MC_LogicShapes", pp, module="MC_LogicShapes")
+    parts.append("MC_LogicShapes=%d" % n)
+    with open(cases, "a") as f:
+        for p in vlib.read_ndjson(pp):
+            f.write(json.dumps({"src": progs.render(p["toks"]), "ast": p["ast"]}, separators=(",", ":")) + "\n")
+            ncases += 1
     obs = os.path.join(wd, "obs.ndjson")
     st = vlib.run_workers("run", cases, ncases, obs, timeout=20)
     # on this corpus a wrong value IS a truth / short-circuit failure, and so is a wrong call log
